@@ -221,6 +221,47 @@ func C05(run *report.Run) {
 			}
 		}
 	}
+	// component path parameters that share the parameter NAME but not the component key or the type: two
+	// templates, each referencing its own component (one keyed like the name, one keyed differently)
+	for ai, ta := range types {
+		for bi, tb := range types {
+			if ai == bi {
+				continue
+			}
+			for _, keyFirst := range []bool{true, false} {
+				sp := &spec.Spec{}
+				ka, kb := "x", "xOther"
+				if !keyFirst {
+					ka, kb = "xOther", "x"
+				}
+				sp.Comp.Params = []spec.NamedParam{
+					{Name: ka, Param: &spec.Param{Name: "x", In: "path", Required: true, Schema: ta.schema(sp)}},
+					{Name: kb, Param: &spec.Param{Name: "x", In: "path", Required: true, Schema: tb.schema(sp)}}}
+				ok := func() []*spec.Response { return []*spec.Response{{Status: "default", Desc: "d"}} }
+				sp.Paths = []*spec.PathItem{
+					{Template: "/a/{x}", Params: []*spec.Param{{Ref: ka}}, Ops: []*spec.Op{{Method: "GET", Responses: ok()}}},
+					{Template: "/b/{x}", Ops: []*spec.Op{{Method: "GET", Params: []*spec.Param{{Ref: kb}}, Responses: ok()}}}}
+				segAlpha := map[string]bool{"a": true, "b": true, "": true}
+				for _, t := range []c05type{ta, tb} {
+					for _, lx := range refmodel.Lexemes(t.pt.Type, t.pt.Format) {
+						if !strings.Contains(lx, "/") {
+							segAlpha[lx] = true
+						}
+					}
+				}
+				var segs []string
+				for sg := range segAlpha {
+					segs = append(segs, sg)
+				}
+				sort.Strings(segs)
+				ts := mkTemplates([]string{"/a/{x}", "/b/{x}"}, []string{"GET"})
+				varTypes := map[string]map[string]drv.PType{"/a/{x}": {"x": ta.pt}, "/b/{x}": {"x": tb.pt}}
+				id := fmt.Sprintf("paramcomponents[a=%s,b=%s,keyEqualsNameOn=%v]", ta.name, tb.name, map[bool]string{true: "/a", false: "/b"}[keyFirst])
+				pl := &drv.PathPayload{RoutePayload: drv.RoutePayload{State: id, Templates: ts, Prefixes: []string{""}, Segs: segs, MaxDepth: 2, Methods: []string{"GET"}}, VarTypes: varTypes}
+				states = append(states, BState{ID: id, Attrs: map[string]string{"shape": "/a/{x} /b/{x}", "decl": "param-components"}, Gen: &genrun.Job{Spec: sp.YAML()}, Prop: "C05", Payload: pl})
+			}
+		}
+	}
 	st := RunBatch(run, env, states, 250)
 	run.Cov["states"] = st.Healthy
 	run.Cov["transitions"] = st.Counters["requests"]
